@@ -479,8 +479,8 @@ def trace_tree(rng):
     for t in toks:
         if real > 1 and rng.random() < 0.3:
             cat = rng.choice(TRACE_CATS)
-            co = rng.choice(['', '1', '2', '3']) if cat not in ('*U*', '*?*', '0') \
-                else ''
+            co = rng.choice(['', '1', '2', '3', '10', '12', '104']) \
+                if cat not in ('*U*', '*?*', '0') else ''
             gap = '4' if rng.random() < 0.05 else ''
             w = cat + ('=' + gap if gap else '') + ('-' + co if co else '')
             t['w'] = w
@@ -492,8 +492,8 @@ def trace_tree(rng):
         if 'c' in n and n is not spec['root'] and rng.random() < 0.5:
             cat = n['l']
             gf = rng.choice(['', '', '-SBJ', '-TMP', '-LOC-CLR'])
-            gap = rng.choice(['', '', '', '=1', '=2'])
-            co = rng.choice(['', '', '-1', '-2', '-3'])
+            gap = rng.choice(['', '', '', '=1', '=2', '=12'])
+            co = rng.choice(['', '', '-1', '-2', '-3', '-10', '-12', '-104'])
             lab = cat + gf + gap + co
             n['l'] = lab
             labelmap[lab] = (cat + gf, cat + gf + co)
